@@ -10,7 +10,7 @@ import io, sys, importlib, contextlib
 from .. import wf as wfmod
 from ..core import short_exc
 
-FAMILIES = ["f1_expr", "f2_portrefs", "f3_noconn", "f4_bundles", "f5_arrays", "f6_pairs", "f7_hier", "f8_names"]
+FAMILIES = ["f1_expr", "f2_portrefs", "f3_noconn", "f4_bundles", "f5_arrays", "f6_pairs", "f7_hier", "f8_names", "f9_multifeed"]
 
 
 def _fam_one(item):
